@@ -153,10 +153,23 @@ def check_matching(ctx, st, pt, theo, obs, tol, ttype, grid, rng):
 
 def fragment_level(ctx, st, pt, rng):
     seq = ''.join(rng.choice('ACDEFGHIKLMNPQRSTVWY') for _ in range(rng.randint(2, 9)))
-    frags = pt.fragment(seq, rng.sample(['b', 'y', 'a', 'c', 'z', 'by', 'i'], rng.randint(1, 3)),
+    # the peptide as it is written in a result file: bare, with a charge state, a terminal or a residue modification
+    r0 = rng.random()
+    seq_text = seq
+    if r0 < 0.15:
+        seq_text = seq + rng.choice(['/2', '/-3', '/1'])
+    elif r0 < 0.25:
+        seq_text = '[Acetyl]-' + seq
+    elif r0 < 0.35:
+        seq_text = seq[:1] + '[+15.995]' + seq[1:] + '/2'
+    frags = pt.fragment(seq_text, rng.sample(['b', 'y', 'a', 'c', 'z', 'by', 'i'], rng.randint(1, 3)),
                         rng.sample([1, 2, 3], rng.randint(1, 2)))
     if not frags:
         return
+    if rng.random() < 0.4:
+        # fragments rebuilt from their dictionary form carry the parent as text instead of an annotation object
+        import dataclasses
+        frags = [dataclasses.replace(f, parent_sequence=seq_text) for f in frags]
     ttype = rng.choice(['ppm', 'th'])
     tol = rng.choice([0.0, 0.01, 0.5, 2.0]) if ttype == 'th' else rng.choice([0.0, 10.0, 500.0, 5000.0])
     peaks = set()
@@ -172,7 +185,7 @@ def fragment_level(ctx, st, pt, rng):
     mode = rng.choice(['all', 'closest', 'largest'])
     shuffled = list(frags)
     rng.shuffle(shuffled)
-    case = {'sequence': seq, 'n_fragments': len(frags), 'peaks': peaks, 'intensities': inten, 'tolerance': tol,
+    case = {'sequence': seq_text, 'n_fragments': len(frags), 'peaks': peaks, 'intensities': inten, 'tolerance': tol,
             'type': ttype, 'mode': mode}
     ctx.begin(case)
     got = observe(st, pt, 'get_fragment_matches', list(shuffled), list(peaks), list(inten), tol, ttype, mode)
